@@ -36,6 +36,7 @@ func main() {
 		genScale(e, *prop, *tier)
 		genKeys(e, *prop, *tier)
 		genDtypeSweep(e, *prop)
+		genSweep(e, *prop, *tier)
 		e.close()
 		fmt.Printf("cases=%d\n", e.n)
 	case "replay":
